@@ -44,11 +44,19 @@ Definition the_fail : failcode :=
 Definition is_try : bool :=
   match st with SUnfold _ _ _ t | SEmit _ _ _ t | SMap _ _ t | SFMap _ _ t => t | _ => false end.
 
-(* Unfold (fail-fast): seed, f seed, ... ; the value on which f fails is still delivered, then its error *)
-Fixpoint unfold_vals (f : fcode) (fl : failcode) (n : nat) (x : Z) : list Z :=
-  match n with O => [] | S m => x :: (if fails fl x then [] else unfold_vals f fl m (fapply f x)) end.
-Fixpoint unfold_errs (f : fcode) (fl : failcode) (n : nat) (x : Z) : list Z :=
-  match n with O => [] | S m => if fails fl x then [err_of x] else unfold_errs f fl m (fapply f x) end.
+(* Unfold: seed, f seed, ... ; the value on which f fails is still delivered, then its error; fail-fast stops there,
+   try-and-continue goes on from what f returned with the error (a failing coded function returns the zero value) *)
+Fixpoint unfold_vals (f : fcode) (fl : failcode) (try : bool) (n : nat) (x : Z) : list Z :=
+  match n with
+  | O => []
+  | S m => x :: (if fails fl x then (if try then unfold_vals f fl try m 0 else []) else unfold_vals f fl try m (fapply f x))
+  end.
+Fixpoint unfold_errs (f : fcode) (fl : failcode) (try : bool) (n : nat) (x : Z) : list Z :=
+  match n with
+  | O => []
+  | S m => if fails fl x then err_of x :: (if try then unfold_errs f fl try m 0 else [])
+           else unfold_errs f fl try m (fapply f x)
+  end.
 
 (* Emit: indices 0,1,2,.. ; (index, value) of the successes, errors of the failures; fail-fast stops at the first failure *)
 Fixpoint emit_idx (fl : failcode) (try : bool) (fuel : nat) (i : Z) : list Z :=
@@ -64,8 +72,8 @@ Fixpoint emit_errs (fl : failcode) (try : bool) (fuel : nat) (i : Z) : list Z :=
 
 Definition gen_vals (k : nat) (n : nat) : list Z :=
   match st, k with
-  | SUnfold seed f fl _, 0%nat => unfold_vals f fl n seed
-  | SUnfold seed f fl _, _ => unfold_errs f fl n seed
+  | SUnfold seed f fl t, 0%nat => unfold_vals f fl t n seed
+  | SUnfold seed f fl t, _ => unfold_errs f fl t n seed
   | SEmit _ f fl try, 0%nat => map (fapply f) (emit_idx fl try n 0)
   | SEmit _ f fl try, _ => emit_errs fl try n 0
   | _, _ => []
